@@ -41,8 +41,8 @@ def make_frames(rnd, peer, kinds):
         elif k == "small":
             fr.append(("a", peer.frame("D", None, [(11, "s")])))
         elif k == "bad34":
-            # well framed, but the session layer chokes on it (MsgSeqNum is not a number): logged and dropped, whatever the chunking -
-            # and the frames around it are handled as if it had not been there
+            # well framed, but the session layer cannot read its header (MsgSeqNum is not a number): the session ends there (since repo fix
+            # for C11's "unreadable header" finding; before it: logged and dropped), whatever the chunking
             fr.append(("x", peer.frame("D", "abc", [(11, "bad%d" % rnd.randrange(1000)), (55, "X")])))
         elif k == "zpad":
             # BodyLength written with leading zeros (a legal FIX int, some engines pad it to a fixed width): the frame is as long as
@@ -144,6 +144,12 @@ async def run_partition(acc, clock, stream, frames, cuts, garb_regions, cid, sid
         if fail is not None or ep.vf_read_task.done():
             acc.violation(classify("reader-task-died"), f"{fail!r}", w, cid)
             return
+        # a frame whose header the session layer cannot read ("x") ends the session there, like a frame without MsgSeqNum: what was
+        # framed before it is handled, nothing behind it - under every chunking
+        ends_at = next((i for i, (k, _) in enumerate(frames) if k == "x"), None)
+        all_frames = frames
+        if ends_at is not None:
+            frames = frames[:ends_at]
         exp_app = [fixwire.get(fixwire.parse(fb), 11) for k, fb in frames if k == "a"]
         got_app = [r[1] for r in ep.rx]
         acc.oracle("delivery")
@@ -160,7 +166,11 @@ async def run_partition(acc, clock, stream, frames, cuts, garb_regions, cid, sid
             acc.violation(classify("inbound-journal-differs"), f"{len(rows)} rows vs {len(exp_rows)} frames sent", w, cid)
             return
         acc.oracle("state-and-tap")
-        if ep.connection_state != ConnectionState.ACTIVE:
+        if ends_at is not None:
+            if ep.connection_state > ConnectionState.DISCONNECTED_BROKEN_CONN:
+                acc.violation(classify("unreadable-header-session-goes-on"), ep.connection_state.name, w, cid)
+                return
+        elif ep.connection_state != ConnectionState.ACTIVE:
             acc.violation(classify("not-active-afterwards"), ep.connection_state.name, w, cid)
             return
         bad = [f for f in E.parse_tap(ep.vf_tap.frames(tap0)) if isinstance(f, Exception) or fixwire.get(f, 35) in ("2", "5", "4")]
